@@ -464,6 +464,18 @@ def rule_screen_init(rep: Report, repo: Repo) -> None:
                     sizes[norm(st.targets[0])] = ['?']
     rep.check(sizes == {'self.pixel_indices': [35], 'self.palette': [11]}, 'C19.SCREEN-INIT', 'init_screen:buffer-sizes', str(sizes),
               f'{SC}:{ini.lineno} InMemoryScreen._init_screen', expected='width * height pixels, palette_size colours')
+    # the pixel buffer is a python list of width * height entries (8 bytes each): the largest size the command layout can spell
+    # (16-bit dimensions: 65535 x 65535 = 4.3e9 entries, ~34 GB) has to be refused with a device error, not attempted
+    big_refused = False
+    for t in gi:
+        try:
+            big_refused = big_refused or bool(_truth(t, {'bpp': 8, 'width': 65535, 'height': 65535, 'palette_size': 256}))
+        except _AE:
+            pass
+    rep.check(big_refused, 'C19.SCREEN-INIT', 'init_screen:largest size', 'refused with a device error' if big_refused else
+              'a well-formed init_screen of 65535 x 65535 passes every refusal: `[0] * (width * height)` is then attempted (MemoryError -> the '
+              'generic "Unknown exception" failure of run(), or the process is killed) - neither decoded nor rejected with a device error',
+              f'{SC}:{ini.lineno} InMemoryScreen._init_screen', expected='a refusal that bounds width * height')
     rq2 = repo.func(SC, 'InMemoryScreen._require_initialized_screen')
     g2 = [(e_, r_, None) for r_, e_ in refusal_tests(rq2)]
     bad = []
